@@ -140,6 +140,8 @@ pub struct Ctx {
     pub inflight_map: RefCell<Option<InflightMap>>,
     pub shrinking: RefCell<bool>,
     pub auto_sample: RefCell<bool>,
+    pub max_shrink_iters: RefCell<u32>,
+    pub last_failure: RefCell<Option<(String, String, Value)>>,
 }
 
 impl Ctx {
@@ -303,7 +305,7 @@ impl Ctx {
             cases: cases as u32,
             failure_persistence: None,
             rng_seed: RngSeed::Fixed(s),
-            max_shrink_iters: 4096,
+            max_shrink_iters: *self.max_shrink_iters.borrow(),
             max_global_rejects: 1_000_000,
             max_local_rejects: 1_000_000,
             ..Config::default()
@@ -328,8 +330,9 @@ impl Ctx {
             let key = hash64(&format!("{:?}", case));
             let is_new = self.count(&verdict, key, || serde_json::to_value(&case).unwrap_or(Value::Null));
             match verdict {
-                Verdict::Fail { sig, .. } if is_new => {
+                Verdict::Fail { sig, detail } if is_new => {
                     *failed_flag.borrow_mut() = true;
+                    *self.last_failure.borrow_mut() = Some((sig.clone(), detail.clone(), serde_json::to_value(&case).unwrap_or(Value::Null)));
                     // drop the unshrunk record; the shrunk one is recorded below
                     self.res.borrow_mut().violations.retain(|v| !(v.sig == sig && v.section == section));
                     Err(TestCaseError::fail(sig))
@@ -344,12 +347,19 @@ impl Ctx {
             Ok(()) => {}
             Err(TestError::Fail(_reason, minimal)) => {
                 let verdict = oracle(&minimal);
+                let mut case_json = serde_json::to_value(&minimal).unwrap_or(Value::Null);
                 let (sig, detail) = match verdict {
                     Verdict::Fail { sig, detail } => (sig, detail),
-                    _ => ("unstable-after-shrink".to_string(), "the shrunk case passed when re-evaluated".to_string()),
+                    _ => {
+                        // the shrunk case does not fail when evaluated again: report the original, unshrunk failure
+                        match self.last_failure.borrow_mut().take() {
+                            Some((sig, detail, original)) => { case_json = original; (sig, format!("{} [shrinking ended on a case that passes when re-evaluated: reported unshrunk]", detail)) }
+                            None => ("unstable-after-shrink".to_string(), "the shrunk case passed when re-evaluated".to_string()),
+                        }
+                    }
                 };
                 let mut r = self.res.borrow_mut();
-                r.violations.push(Violation { property: self.property.clone(), section: section.to_string(), sig, detail, case: serde_json::to_value(&minimal).unwrap_or(Value::Null) });
+                r.violations.push(Violation { property: self.property.clone(), section: section.to_string(), sig, detail, case: case_json });
                 *self.failed.borrow_mut() = true;
             }
             Err(TestError::Abort(reason)) => {
@@ -764,6 +774,8 @@ pub fn make_child_ctx(property: &str, tier: Tier, seed: u64, worker: u32, worker
         inflight_map: RefCell::new(None),
         shrinking: RefCell::new(false),
         auto_sample: RefCell::new(true),
+        max_shrink_iters: RefCell::new(4096),
+        last_failure: RefCell::new(None),
     }
 }
 
